@@ -196,6 +196,11 @@ def enum_scripts(tier):
         [["sub"], ["open"], ["adv", 3], ["call", "none"], ["adv", 30], ["adv", 100]],
         [["open"], ["adv", 0.3], ["soon"], ["adv", 2], ["zc", "same"], ["adv", 50], ["call", "5"], ["adv", 120]],
     ]
+    # the library itself gives a session up after a reply it cannot use; nothing else touches the pairing afterwards
+    for kind in ("text", "bytes"):
+        for opn in (["sub"], ["sub", [[2, 10]]]):
+            yield {"hosts": ["main"], "script": ["ok", "ok"], "ops": [["open"], ["adv", 1], ["garble", kind], opn, ["adv", 100]]}
+            yield {"hosts": ["main", "dead"], "script": ["ok", "refused", "ok"], "ops": [["sub"], ["open"], ["adv", 1], ["garble", kind], opn, ["adv", 130]]}
     for n in range(1, d + 1):
         for script in itertools.product(REPS, repeat=n):
             for fi, frame in enumerate(frames):
